@@ -13,11 +13,15 @@ Open Scope Qc_scope.
 
 Inductive step :=
 | Step (o : op) (raised : bool) (post : sset)
-| StepFirst (seen : option row).
+| StepFirst (seen : option row)
+(* a sorted slice / `first` together with what np.argsort returned for the same key vector: the
+   implementation's result must be EXACTLY the code shape record[order[selector]] / record[order[0]] *)
+| StepSorted (k : skey) (a b c : option Z) (order : list nat) (post : sset)
+| StepFirstAt (order : list nat) (seen : option row).
 
 Inductive case :=
 | SeqCase (K : lkeys) (sortl : bool) (init seen0 : sset) (steps : list step)
-| DeferCase (K : lkeys) (base : sset) (ops : list op) (seen : option sset)
+| DeferCase (K : lkeys) (base : sset) (ops : list op) (pending : bool) (calls : list dcall) (seen : option sset)
 | AsCase (ref_labels : list label) (ref_rows : list (list Qc)) (outs : list (option (list label * list (list Qc)))).
 
 Definition same_frame (a b : sset) : bool :=
@@ -36,8 +40,35 @@ Definition agg_oracle (before after : list row) : bool :=
   && list_eqb Nat.eqb (map tag after) (map (fun i => tag (nth i before rowz)) (distinct_firsts before 0 []))
   && forallb (fun a => existsb (fun b => row_eqb (set_oc a 0%Z) (set_oc b 0%Z)) before) after.
 
+(* is `order` an admissible outcome of np.argsort(keys)? *)
+Fixpoint sortedb (l : list Qc) : bool :=
+  match l with
+  | x :: ((y :: _) as r) => qle x y && sortedb r
+  | _ => true
+  end.
+Definition argsort_ok_b (keys : list Qc) (order : list nat) : bool :=
+  (length order =? length keys)%nat && nodupb order && forallb (fun i => (i <? length keys)%nat) order
+  && sortedb (map (fun i => nth i keys 0) order).
+
+(* the future-backed state machine, following the returned handle *)
+Fixpoint drun (K : lkeys) (base : sset) (calls : list dcall) (d : dstate) : option sset :=
+  match calls with
+  | [] => dresolve K base d
+  | c :: r => match dstep K base c d with Some (_, ret) => drun K base r ret | None => None end
+  end.
+
 Definition step_ok (K : lkeys) (cur : sset) (st : step) : bool * sset :=
   match st with
+  | StepSorted k a b c order post =>
+      (same_frame cur post && argsort_ok_b (map (key_of k) (rws cur)) order
+       && list_eqb row_eqb (slice_sorted_code order (slice_indices (length (rws cur)) a b c) (rws cur)) (rws post)
+       && slice_sorted_ok k a b c (rws cur) (rws post), cur)      (* emitted BEFORE the Step it belongs to *)
+  | StepFirstAt order seen =>
+      (match first_code order (rws cur), seen with
+       | None, None => match rws cur with [] => true | _ => false end
+       | Some r, Some r' => argsort_ok_b (map en (rws cur)) order && row_eqb r r' && first_ok (rws cur) r'
+       | _, _ => false
+       end, cur)
   | StepFirst seen =>
       (match rws cur, seen with
        | [], None => true
@@ -80,7 +111,8 @@ Definition check (c : case) : bool :=
   match c with
   | SeqCase K sortl init seen0 steps =>
       sset_eqb (sort_columns K sortl init) seen0 && steps_ok K seen0 steps
-  | DeferCase K base ops seen =>
+  | DeferCase K base ops pending calls seen =>
       option_eqb sset_eqb (resolve K (fold_left (fun p o => defer o p) ops []) base) seen
+      && option_eqb sset_eqb (drun K base calls (if pending then DPending [] else DResolved base)) seen
   | AsCase rl rr outs => forallb (as_out_ok rl rr) outs
   end.
